@@ -73,6 +73,10 @@ def group_value_flow(ctx, gf: GroupFacts, rule: str) -> None:
     gi = gf.group_items[0] if gf.group_items else "?"
     if gf.which == "aggregate":
         h = gf.helper("aggregate_col")
+        if len(h.params) != 3:
+            ctx.ob(rule, h, "aggregate_col", False, "", h.node,
+                   message=f"aggregate_col takes {h.params}: extra parameters let a group's value bypass the aggregate function")
+            return
         col, func, suffix = h.params
         problems = []
         body = [s for s in h.body if not (isinstance(s, ast.Expr) and isinstance(s.value, ast.Constant))]
@@ -98,6 +102,17 @@ def group_value_flow(ctx, gf: GroupFacts, rule: str) -> None:
             apps = [n for n in walk_no_nested(lp) if isinstance(n, ast.Call) and isinstance(n.func, ast.Attribute) and n.func.attr == "append"]
             if len(apps) != 1:
                 problems.append("not exactly one result per group")
+            elif len(calls) == 1:
+                arg = apps[0].args[0] if len(apps[0].args) == 1 else None
+                if isinstance(arg, ast.Name):
+                    src = [s.value for s in lp.body if isinstance(s, ast.Assign) and len(s.targets) == 1
+                           and isinstance(s.targets[0], ast.Name) and s.targets[0].id == arg.id]
+                    arg = src[0] if len(src) == 1 else None
+                if arg is not calls[0]:
+                    problems.append(f"the value appended for a group (`{short(apps[0], 80)}`) is not the aggregate function's result itself "
+                                    f"(a pass-through of the group's own value would leak a None)")
+                if any(not isinstance(s, (ast.Assign, ast.Expr)) for s in lp.body):
+                    problems.append("the per-group loop body branches: some group can by-pass the aggregate function")
         fin = [n for n in walk_no_nested(h.node) if isinstance(n, ast.Call) and short(n.func) == f"{gf.result_list}.append"]
         if len(fin) != 1 or not (isinstance(fin[0].args[0], ast.Call) and short(fin[0].args[0].func) == "Vector"):
             problems.append("aggregate_col does not append exactly one result column")
@@ -113,6 +128,11 @@ def group_value_flow(ctx, gf: GroupFacts, rule: str) -> None:
                message="aggregate_col: " + "; ".join(problems))
     else:
         h = gf.helper("compute_group_values")
+        if len(h.params) != 2:
+            ctx.ob(rule, h, "compute_group_values", False, "", h.node,
+                   message=f"compute_group_values takes {h.params}: extra parameters (flags, caches) let a group's value bypass the "
+                           f"aggregate function fn(values of the group)")
+            return
         col, fn = h.params
         d = Defs(h)
         problems = []
@@ -203,6 +223,17 @@ def apply_block(ctx, gf: GroupFacts, rule: str) -> None:
                         problems.append(f"apply output is named `{short(n_e) if n_e is not None else '?'}`, expected uniquify({nm})")
     ctx.ob(rule, gf.f, "apply", not problems, f"{gf.which}: apply receives each group's values (None included, row order) once", b,
            message=f"{gf.which}(apply=...): " + "; ".join(problems))
+
+
+def single_exit(ctx, gf: GroupFacts, rule: str) -> None:
+    """aggregate / window have exactly one return: the table of all result columns (no special case for empty input)."""
+    rets = [s for s in walk_stmts(gf.f.body) if isinstance(s, ast.Return)]
+    ok = len(rets) == 1 and rets[0] is gf.body[-1] and short(rets[0].value) == f"Table({gf.result_list})"
+    extra = [r for r in rets if r is not gf.body[-1]]
+    ctx.ob(rule, gf.f, "single-exit", ok, f"{gf.which}: the only return is Table(<all result columns>)", extra[0] if extra else gf.f.node,
+           message=f"{gf.which}: " + (f"`{short(extra[0], 60)}` (line {extra[0].lineno}) returns early: key columns / aggregate columns are not "
+                                      f"produced for that input (e.g. a zero-row table must still give the key and aggregate columns)"
+                                      if extra else "the final return is not Table(<result columns>)"))
 
 
 def key_columns(ctx, gf: GroupFacts, rule: str) -> None:
